@@ -17,5 +17,6 @@ RouteKinds == {"static", "param", "opt", "regex", "all", "hdr", "render", "panic
 HasVal(k) == k \in {"param", "opt", "regex", "all", "render", "panic"}
 Serial(rq) == [h |-> rq.route, val |-> IF HasVal(rq.route) THEN rq.val ELSE "", tag |-> rq.id,
                url |-> "/p/" \o rq.val, wid |-> rq.id,
-               scr |-> rq.id]     \* the scratch value its own middleware left in the Params map of the request
+               scr |-> rq.id,
+               log |-> 20]        \* 10 x (lines of this request in its own request-scoped logger: Started, Completed) + lines of others     \* the scratch value its own middleware left in the Params map of the request
 ====
